@@ -126,6 +126,7 @@ class Printer:
         self.src_cache = {}
         self.default_file = None
         self.byref_captures = set()     # decl ids of non-reference variables a lambda captures by reference
+        self.renamed = {}               # decl id -> printed name, for parameters whose C++ name repeats (expanded packs)
 
     # ------------------------------------------------------------------ types
     def ctype_q(self, q):
@@ -484,9 +485,10 @@ class Printer:
             if rd.get('kind') in ('FunctionDecl', 'CXXMethodDecl'):
                 raise Unsupported(f'function reference {rd.get("name")} outside a call')
             ty = rd.get('type', {}).get('qualType', '').rstrip()
+            nm = self.renamed.get(rd.get('id'), rd['name'])      # k-th element of an expanded parameter pack: name_k
             if ty.endswith('&') or rd.get('id') in self.byref_captures:
-                return f'(*{rd["name"]})'
-            return rd['name']
+                return f'(*{nm})'
+            return nm
         if k == 'CXXThisExpr':
             return 'self'
         if k == 'MemberExpr':
@@ -991,11 +993,25 @@ class Printer:
         # a function returning a reference returns the address of the returned glvalue
         self.ret_is_ref = (not ret_override and d.get('kind') != 'CXXConstructorDecl' and rett.endswith('&')
                            and rc.endswith('*'))
+        if ret_override and ret_override.rstrip().endswith('&'):
+            # `Fn(..., ret='T&')`: a reference return type that clang prints through a dependent alias
+            # (`typename tbase::tmutableref`): returns the address of the returned glvalue, like any other reference
+            rc = self.ret_ctype = ret_override.rstrip()[:-1].rstrip() + '*'
+            self.ret_is_ref = True
         ps = []
         if self.self_struct:
             ps.append(f'{self.self_struct}* self')
+        names = [q.get('name') for q in params]
+        seen = {}
         for k, q in enumerate(params):
-            ps.append(f'{self.ctype(q["type"])} {q.get("name", f"nv_unnamed{k}")}')
+            nm = q.get('name', f'nv_unnamed{k}')
+            if nm in names and names.count(nm) > 1:
+                # an expanded parameter pack (`tindices... indices`) repeats one name: the j-th element prints as name_j
+                j = seen.get(nm, 0)
+                seen[nm] = j + 1
+                self.renamed[q.get('id')] = f'{nm}_{j}'
+                nm = f'{nm}_{j}'
+            ps.append(f'{self.ctype(q["type"])} {nm}')
         ps += list(extra_params)
         text = self.stmt(body, 0)
         inits = [c for c in d['inner'] if c.get('kind') == 'CXXCtorInitializer']
